@@ -69,11 +69,14 @@ func (q *rtmp2MpegtsFilter) Push(msg base.RtmpMsg) {
 
 	q.data = append(q.data, msg.Clone())
 
-	switch msg.Header.MsgTypeId {
-	case base.RtmpTypeIdAudio:
-		q.audioCodecId = int(msg.Payload[0] >> 4)
-	case base.RtmpTypeIdVideo:
-		q.videoCodecId = int(msg.VideoCodecId())
+	// 注意，空payload的消息不携带编码格式信息
+	if len(msg.Payload) != 0 {
+		switch msg.Header.MsgTypeId {
+		case base.RtmpTypeIdAudio:
+			q.audioCodecId = int(msg.AudioCodecId())
+		case base.RtmpTypeIdVideo:
+			q.videoCodecId = int(msg.VideoCodecId())
+		}
 	}
 
 	if q.videoCodecId != -1 && q.audioCodecId != -1 {
